@@ -3,6 +3,8 @@ import Proofs.Lemmas.Backtrack
 import Spec.Backtrack
 import Proofs.Properties.C18
 import Generated.C01Rewinds
+import Spec.TypedNil
+import Generated.C01TypedNil
 /-!
 # C01 — lexing is total: every byte string, in both modes, yields a token list;
 no index is ever out of range, every loop-body step consumes at least one byte,
@@ -204,5 +206,126 @@ example : (nest 0 24).size = 49 ∧ 16777216 ≤ work (fun _ => .retryFirst) (ne
   simpa using this
 
 end ParseWork
+
+/-! ## Accepted-program-is-complete clause: the missing-operand guard and Go's typed nil (round 8)
+
+`Parser.required` is a test `v == nil` on an interface value. It is sound for a producer exactly when
+the producer reports "nothing found" as the UNTYPED nil. A sub-parser with a concrete pointer result
+type that returns `nil` reaches the guard as a typed nil: accepted, and dereferenced when the program
+is executed. The tie to parser/*.go: `Generated.C01.ifaceConversions` (extract/c01/typednil.go) lists
+every conversion of a declared pointer result to an interface slot; obligation
+`gen_no_typed_nil_guard_sites`. -/
+section TypedNil
+open Model.TypedNil Spec.TypedNil
+
+/-- **The guard is sound for a producer iff "nothing found" arrives as the untyped nil** (for any
+producer that hands back the node it found). -/
+theorem C01_required_guard_sound_iff (conv : Found → Iface)
+    (hnode : ∀ n, conv (some n) = .typed (.node n)) (hnone : ∀ n, conv none ≠ .typed (.node n)) :
+    GuardSound conv ↔ conv none = .untyped := by
+  constructor
+  · intro h
+    cases hc : conv none with
+    | untyped => rfl
+    | typed p =>
+      cases p with
+      | node n => exact absurd hc (hnone n)
+      | nil =>
+        have := h none (.typed .nil) (by simp [required, hc, Iface.isNil])
+        simp [Iface.use] at this
+  · intro h r w hw
+    cases r with
+    | none => simp [required, h, Iface.isNil] at hw
+    | some n =>
+      simp [required, hnode, Iface.isNil] at hw
+      subst hw; simp [Iface.use]
+
+/-- and then the guard is also complete: a missing operand is rejected with the diagnostic -/
+theorem C01_required_guard_complete_iff (conv : Found → Iface) :
+    GuardComplete conv ↔ conv none = .untyped := by
+  unfold GuardComplete required
+  cases hc : conv none with
+  | untyped => simp [Iface.isNil]
+  | typed p => simp [Iface.isNil]
+
+/-- a sub-parser declared to return the interface is guarded soundly and completely … -/
+theorem C01_iface_producer_guarded : GuardSound viaIface ∧ GuardComplete viaIface :=
+  ⟨(C01_required_guard_sound_iff viaIface (fun _ => rfl) (fun _ => by simp [viaIface])).mpr rfl,
+   (C01_required_guard_complete_iff viaIface).mpr rfl⟩
+
+/-- … so is a pointer producer whose result is tested before the conversion … -/
+theorem C01_checked_ptr_producer_guarded : GuardSound viaPtrChecked ∧ GuardComplete viaPtrChecked :=
+  ⟨(C01_required_guard_sound_iff viaPtrChecked (fun _ => rfl) (fun _ => by simp [viaPtrChecked])).mpr rfl,
+   (C01_required_guard_complete_iff viaPtrChecked).mpr rfl⟩
+
+/-- **Negation witness (the seeded shape).** A helper declared `(*T, Control)` that returns `nil, nil`
+for a missing operand defeats the guard: the incomplete construct is accepted and evaluating it
+dereferences nil. Replayed on the real code by the hole stream (`[0, ...]`). -/
+theorem C01_typed_nil_defeats_guard :
+    required (viaPtr none) false = .accept (.typed .nil) ∧ (Iface.typed .nil).use = .nilDeref ∧
+    ¬ GuardSound viaPtr ∧ ¬ GuardComplete viaPtr := by
+  refine ⟨rfl, rfl, ?_, ?_⟩
+  · intro h
+    exact h none (.typed .nil) rfl rfl
+  · intro h
+    simp [GuardComplete, required, viaPtr, Iface.isNil] at h
+
+/-- **Table theorem.** If no regenerated conversion site can carry a typed nil, every conversion of
+the table is guarded soundly and completely; -/
+theorem C01_no_typed_nil_sound {tbl : List Conv} (h : noTypedNil tbl = true) :
+    ∀ c ∈ tbl, GuardSound c.conv ∧ GuardComplete c.conv := by
+  intro c hc
+  have hb := (List.all_eq_true.mp h) c hc
+  have hconv : c.conv none = .untyped ∧ (∀ n, c.conv (some n) = .typed (.node n)) := by
+    unfold Conv.conv
+    cases hn : c.nilOk <;> cases hk : c.checked <;> simp [Conv.typedNil, hn, hk] at hb ⊢ <;>
+      exact ⟨rfl, fun _ => rfl⟩
+  exact ⟨(C01_required_guard_sound_iff c.conv hconv.2 (fun n => by simp [hconv.1])).mpr hconv.1,
+         (C01_required_guard_complete_iff c.conv).mpr hconv.1⟩
+
+/-- and conversely a site that can is unsound: the obligation is exactly the property of the table -/
+theorem C01_typed_nil_site_unsound {c : Conv} (h : c.typedNil = true) :
+    ¬ GuardSound c.conv ∧ ¬ GuardComplete c.conv := by
+  have hc : c.conv = viaPtr := by
+    unfold Conv.conv
+    simp [Conv.typedNil] at h
+    simp [h.1, h.2]
+  rw [hc]
+  exact ⟨C01_typed_nil_defeats_guard.2.2.1, C01_typed_nil_defeats_guard.2.2.2⟩
+
+theorem C01_no_typed_nil_iff (tbl : List Conv) :
+    noTypedNil tbl = true ↔ ∀ c ∈ tbl, GuardSound c.conv := by
+  constructor
+  · intro h c hc
+    exact (C01_no_typed_nil_sound h c hc).1
+  · intro h
+    apply List.all_eq_true.mpr
+    intro c hc
+    cases ht : c.typedNil with
+    | false => rfl
+    | true => exact absurd (h c hc) (C01_typed_nil_site_unsound ht).1
+
+theorem gen_typednil_shape : Generated.C01.typedNilShapeChanged = [] := by decide
+
+/-- obligation on the regenerated facts ("no typed-nil guard sites"): no function of package parser
+with a concrete pointer result type that may return (nil, no error) has that result converted to an
+interface slot without a nil test. A helper `parseX() (*node.X, data.Control)` under
+`p.required(p.parseX())` breaks this `decide`. -/
+theorem gen_no_typed_nil_guard_sites : noTypedNil Generated.C01.ifaceConversions = true := by decide
+
+/-- **The pinned parser's conversions are all guarded soundly and completely.** -/
+theorem C01_guard_sound_generated :
+    ∀ c ∈ Generated.C01.ifaceConversions, GuardSound c.conv ∧ GuardComplete c.conv :=
+  C01_no_typed_nil_sound gen_no_typed_nil_guard_sites
+
+/-! non-vacuity -/
+/-- the regenerated table is not empty … -/
+example : Generated.C01.ifaceConversions ≠ [] := by decide
+/-- … an accepted operand is used … -/
+example : required (viaIface (some 7)) false = .accept (.typed (.node 7)) ∧ (Iface.typed (.node 7)).use = .ok 7 := by decide
+/-- … and the seeded shape — `ep.required(ep.parseSpread())` with `parseSpread` returning `nil, acl` — fails the obligation -/
+example : noTypedNil [{ file := "parser/lbracket_parser.go", fn := "LbracketParser.Parse", producer := "parseSpread", form := .forward, consumer := "required", nilOk := true, checked := false }] = false := by decide
+
+end TypedNil
 
 end C01
